@@ -283,10 +283,14 @@ func Mangle(r Rnd, method string, codec bool, structuralOnly bool, frame []byte)
 			ra.ResultOrException[1].Index = ra.ResultOrException[0].Index
 			if r.Chance(0.5) {
 				// the same action answered by exceptions first and a result last
+				// (a caller that gets a retryable answer comes back and drains the
+				// surplus answers; one that gets a final answer does not, so both
+				// classes are drawn)
+				classes := []string{ExTooBusy, ExDoNotRetry, ExNoSuchFamily, ExCallQueue}
 				first := ra.ResultOrException[0]
-				first.Result, first.Exception = nil, excPair(ExTooBusy, "busy")
-				if r.Chance(0.5) {
-					dup := &pb.ResultOrException{Index: first.Index, Exception: excPair(ExTooBusy, "busy again")}
+				first.Result, first.Exception = nil, excPair(classes[r.Intn(len(classes))], "dup")
+				for k, n := 0, r.Intn(4); k < n; k++ {
+					dup := &pb.ResultOrException{Index: first.Index, Exception: excPair(classes[r.Intn(len(classes))], "dup again")}
 					ra.ResultOrException = append([]*pb.ResultOrException{dup}, ra.ResultOrException...)
 				}
 			}
